@@ -1,6 +1,7 @@
 package main
 
 import (
+	"strconv"
 	"fmt"
 	"go/constant"
 	"go/token"
@@ -22,6 +23,7 @@ type Frame struct {
 	entry     *State // state at entry of this activation (old() for its loop invariants)
 	names     map[string]Val
 	loopIn    map[int]*State
+	loopEntry map[*ssa.BasicBlock][2]string
 	loopPos   map[int]int
 	loopDirty map[int]string
 	top       bool
@@ -337,7 +339,59 @@ func (c *Ctx) flow(fr *Frame, from, to *ssa.BasicBlock, st *State, at ssa.Instru
 		c.backEdge(fr, from, to, st)
 		return
 	}
+	if h := leavesLoop(from, to); fr.top && !c.lfMode && h != nil {
+		n := 0
+		for _, o := range c.obls {
+			if o.Kind == "cover" {
+				n++
+			}
+		}
+		c.obls = append(c.obls, &Obligation{Name: fmt.Sprintf("%s/cover#loopexit%d", c.fn, n), Kind: "cover", Func: c.fn, Prefix: len(c.script), Goal: not(st.reach), Expect: "sat",
+			Unless: fr.loopEntry[h][0], UnlessPrefix: atoi(fr.loopEntry[h][1]),
+			Text: "the loop exit is reachable whenever the loop is (invariants and callee contracts are not contradictory)", Pos: c.P.pos(c.curPos)})
+	}
 	fr.ins[to] = append(fr.ins[to], edgeIn{from, st})
+}
+
+// leavesLoop: from is inside some natural loop that does not contain to.
+func atoi(s string) int { n, _ := strconv.Atoi(s); return n }
+
+func leavesLoop(from, to *ssa.BasicBlock) *ssa.BasicBlock {
+	fn := from.Parent()
+	for _, h := range fn.Blocks {
+		isH := false
+		for _, p := range h.Preds {
+			if isBackEdge(p, h) {
+				isH = true
+			}
+		}
+		if !isH {
+			continue
+		}
+		inFrom := h == from || (h.Dominates(from) && reachesWithout(from, h, map[*ssa.BasicBlock]bool{}))
+		inTo := h == to || (h.Dominates(to) && reachesWithout(to, h, map[*ssa.BasicBlock]bool{}))
+		if inFrom && !inTo {
+			return h
+		}
+	}
+	return nil
+}
+
+// reachesWithout: b can reach a back-edge source of header h (i.e. b lies in the natural loop of h).
+func reachesWithout(b, h *ssa.BasicBlock, seen map[*ssa.BasicBlock]bool) bool {
+	if seen[b] {
+		return false
+	}
+	seen[b] = true
+	for _, s := range b.Succs {
+		if s == h {
+			return true
+		}
+		if h.Dominates(s) && reachesWithout(s, h, seen) {
+			return true
+		}
+	}
+	return false
 }
 
 func predIndex(b, p *ssa.BasicBlock) int {
@@ -401,6 +455,10 @@ func (c *Ctx) loopHead(fr *Frame, h *ssa.BasicBlock, in *State, entryPhis map[*s
 	ord := loopOrdinal(fr.fn, h)
 	key := c.loopKey(fr, h)
 	fr.loopIn[ord] = in.clone()
+	if fr.loopEntry == nil {
+		fr.loopEntry = map[*ssa.BasicBlock][2]string{}
+	}
+	fr.loopEntry[h] = [2]string{in.reach, fmt.Sprint(len(c.script))}
 	// 1. invariants on entry
 	for phi, v := range entryPhis {
 		fr.vals[phi] = v
